@@ -89,6 +89,17 @@ CHECKS = {
              "called, single text node) and on documents with comments vs their comment-free form.",
         note=TRUST + "preprocess_text/_encode/tokenizer are exercised, not modelled; html.unescape on the implementation side.",
         ref="DESIGN.md section 4 C15"),
+    "C05": dict(
+        technique="Coq proofs (depth limit in-band; loop detector sound and complete for repeated suffixes) + model correspondence on cyclic libraries + totality sweep of every parser function",
+        text="Theorems c05_depth_limit_inband, c05_loop_detector_sound and c05_loop_detector_complete on the expander model "
+             "(the detector fires exactly on stacks ending in >=2 copies of a non-ARGVAL-led pattern). The model is compared "
+             "with Wtp.expand on arbitrary (cyclic) call graphs; a corpus of ten direct cycle shapes must return with the "
+             "error element and a recorded message; every name in PARSER_FUNCTIONS x argument vectors from a 60-entry pool x "
+             "9 page titles, #expr token soups and nesting ladders to depth 150 must return a str without raising, under a "
+             "wall-clock bound. PARTIAL: no bound on total work is proved (exponential worst case: known finding); parser "
+             "function totality is by exhaustive-over-names execution, not by a semantic model.",
+        note=TRUST + "time bound enforced by SIGALRM; the two network-backed functions (#property, #statements) are excluded.",
+        ref="DESIGN.md section 4 C05"),
 }
 
 NOT_YET = "check not built yet in this round (planned, see DESIGN.md section 8)"
